@@ -1095,7 +1095,7 @@ func (g *Generator) genAttributeInteger(w io.Writer, attr *dictionary.Attribute,
 		p(w, `		var tag byte`)
 		p(w, `		if len(attr) >= 1 && attr[0] <= 0x1F {`)
 		p(w, `			tag = attr[0]`)
-		p(w, `			attr[0] = 0x00`)
+		p(w, `			attr = append(radius.Attribute{0x00}, attr[1:]...)`)
 		p(w, `		}`)
 	} else if attr.FlagEncrypt.Valid && attr.FlagEncrypt.Int == dictionary.EncryptTunnelPassword {
 		// Having a tag an being encrypted with Tunnel password seems mutually exclusive for integers.
@@ -1149,7 +1149,7 @@ func (g *Generator) genAttributeInteger(w io.Writer, attr *dictionary.Attribute,
 	if attr.HasTag() {
 		p(w, `	if len(a) >= 1 && a[0] <= 0x1F {`)
 		p(w, `		tag = a[0]`)
-		p(w, `		a[0] = 0x00`)
+		p(w, `		a = append(radius.Attribute{0x00}, a[1:]...)`)
 		p(w, `	}`)
 	} else if attr.FlagEncrypt.Valid && attr.FlagEncrypt.Int == dictionary.EncryptTunnelPassword {
 		// Having a tag an being encrypted with Tunnel password seems mutually exclusive for integers.
